@@ -357,7 +357,7 @@ def rule_panic(check):
                 # token's generated line differs from the previous one, pushes `;` and adds 1 to the previous
                 # line: tokens must reach the builder in the order of the generated positions, which is the
                 # order SourceMap::tokens() yields them in
-                if name == "add_raw":
+                if name in ("add_raw", "add"):
                     def _loops(f_, n_, depth=0):
                         ls = [a for a in f_.ancestors(n_) if a.get("k") == "Match" and a.get("source", "").startswith("ForLoopDesugar") and hir.is_call(hir.peel(a["scrut"])) and (hir.callee_name(hir.peel(a["scrut"])) or "") == "into_iter"]
                         if ls or depth > 2:
